@@ -322,3 +322,7 @@ func Check(label string, c bool) {
 		mu.Unlock()
 	}
 }
+
+// StageProto hands the engine the message that the staged os.ReadFile / protojson.Unmarshal pair
+// "decodes" (natively the harness writes a real JSON file instead).
+func StageProto(m interface{}) {}
